@@ -73,6 +73,8 @@ def _isfinite(x):
 def _isnan(x):
     if core.is_sym(x):
         return False
+    if isinstance(x, (list, tuple)) and _has_sym(x):
+        x = _np.array(x, dtype=object)
     if isinstance(x, _np.ndarray) and x.dtype == object:
         out = _np.zeros(x.shape, dtype=bool)
         for i, v in _np.ndenumerate(x):
